@@ -497,8 +497,10 @@ with exec_stmt (fuel : nat) (depth : nat) (top : bool) (env : list (string * nat
   | S f =>
       match s with
       | SExpr e =>
+          (* the value of an expression statement is only observed in result position, which
+             [exec_stmts] / [exec_branch] handle themselves: here it is dropped *)
           match eval_expr f depth env st e with
-          | (st1, ROk v) => (st1, ROk (CNormal v, env))
+          | (st1, ROk _) => (st1, ROk (CNormal VNull, env))
           | (st1, RErr k) => (st1, RErr k)
           | (st1, RFuel) => (st1, RFuel)
           end
@@ -525,7 +527,10 @@ with exec_stmt (fuel : nat) (depth : nat) (top : bool) (env : list (string * nat
       | SIf c t e =>
           match eval_expr f depth env st c with
           | (st1, ROk vc) =>
+              (* a declaration cannot be a branch by itself (the parser only produces blocks and
+                 `else if`): outside the modelled fragment *)
               if truthy vc then
+                if declares t then (st1, RErr EUnsupported) else
                 match exec_stmt f depth false env st1 t with
                 | (st2, ROk (c2, _)) => (st2, ROk (c2, env))
                 | x => x
@@ -533,6 +538,7 @@ with exec_stmt (fuel : nat) (depth : nat) (top : bool) (env : list (string * nat
               else
                 match e with
                 | Some es =>
+                    if declares es then (st1, RErr EUnsupported) else
                     match exec_stmt f depth false env st1 es with
                     | (st2, ROk (c2, _)) => (st2, ROk (c2, env))
                     | x => x
